@@ -124,8 +124,8 @@ Fixpoint rows_closeQ (eps : Q) (X Y : list (vec Q)) : bool :=
   | x :: X', y :: Y' => vcloseQ eps x y && rows_closeQ eps X' Y'
   | _, _ => false
   end.
-(* `n` is accepted as the square root of `sq` when it is positive and n^2 is within sq * 2^-100.
-   (Square roots are irrational in general; the harness supplies a 60-digit rational witness, the
+(* `n` is accepted as the square root of `sq` when it is positive and n^2 is within sq * 2^-60.
+   (Square roots are irrational in general; the harness supplies a ~70-bit dyadic witness, the
    model checks it. The theorems over R are stated for the exact root.) *)
 Definition sqrt_witness_ok (n sq : Q) : bool :=
-  Qle_bool 0 n && negb (Qle_bool n 0) && Qle_bool (Qabs (n * n - sq)) (sq * (1 # 1267650600228229401496703205376)).
+  Qle_bool 0 n && negb (Qle_bool n 0) && Qle_bool (Qabs (n * n - sq)) (sq * (1 # 1152921504606846976)).
